@@ -1,5 +1,7 @@
 import Tpp.Model.Strings
 import Tpp.Lemmas.Step
+import Tpp.Lemmas.StringOps
+import Tpp.Model.Ctors
 /-!
 C17 – the plain text of a string is preserved from construction to the wire.
 -/
@@ -95,6 +97,136 @@ theorem C17_wire_vt (beh : Behaviour) (s : TermState) (vt : VT) (hA : Agree s vt
     exact this
   rw [List.flatMap_def, h3, TString.toString, List.flatMap_def]
   rfl
+
+-- ---------------------------------------------------------------------------------------------------------
+-- every way of constructing and editing a string (the whole of `class string`)
+
+/-- `string(char const*)`: the text up to the terminating NUL, whatever follows it in memory -/
+theorem C17_ctor_cstr (bs junk : List Byte) (h : ∀ b ∈ bs, b ≠ 0) :
+    TString.toString (TString.ofCStr (bs ++ 0 :: junk)) = bs := by
+  have : ∀ bs : List Byte, (∀ b ∈ bs, b ≠ 0) → (bs ++ 0 :: junk).takeWhile (· ≠ 0) = bs := by
+    intro bs
+    induction bs with
+    | nil => intro _; simp
+    | cons b bs ih =>
+      intro h
+      have hb : b ≠ 0 := h b (by simp)
+      simpa [hb] using ih (fun x hx => h x (by simp [hx]))
+  rw [TString.ofCStr, this bs h, C17_roundtrip]
+
+/-- `string(std::string, attribute)`: attributes never drop, add or reorder text – for ANY bytes (embedded NUL
+    included) – and every element carries the attribute -/
+theorem C17_ctor_attr (bs : List Byte) (a : Attr) :
+    TString.toString (TString.withAttr a (TString.ofBytes bs)) = bs
+    ∧ (TString.withAttr a (TString.ofBytes bs)).length = bs.length
+    ∧ ∀ e ∈ TString.withAttr a (TString.ofBytes bs), e.attr = a := by
+  refine ⟨?_, by simp [TString.withAttr, TString.ofBytes], ?_⟩
+  · have : TString.toString (TString.withAttr a (TString.ofBytes bs)) = TString.toString (TString.ofBytes bs) := by
+      simp [TString.toString, TString.withAttr, List.flatMap_def, List.map_map, Function.comp_def]
+    rw [this, C17_roundtrip]
+  · intro e he
+    simp only [TString.withAttr, List.mem_map] at he
+    obtain ⟨e', _, rfl⟩ := he
+    rfl
+
+/-- `string(size, element)` -/
+theorem C17_ctor_fill (n : Nat) (e : Element) :
+    TString.toString (List.replicate n e) = (List.replicate n e.glyph.toStringBytes).flatten := by
+  simp [TString.toString_eq_flatten]
+
+/-- **text preservation under every program over the class**: run any sequence of constructors, `+=`, `+`,
+    `insert`, `erase`, `swap` and `operator[]` assignments on any registers; the plain text of every resulting
+    string is what the SAME program yields when run on the sequences of glyph texts.  No operation drops,
+    duplicates, reorders or alters text except as the sequence operation itself says; attributes never matter. -/
+theorem C17_program_text (ops : List (SeqOp Element)) (g : Regs Element) (r : Nat) :
+    TString.toString (SeqOp.run g ops r)
+      = (SeqOp.run (g.map fun e => e.glyph.toStringBytes) (ops.map (SeqOp.map fun e => e.glyph.toStringBytes)) r).flatten := by
+  rw [TString.toString_eq_flatten, ← SeqOp.run_map]
+  rfl
+
+/-- the two `insert`s and the three `erase`s spelled out on the text -/
+theorem C17_insert_text (s : List Element) (pos : Nat) (e : Element) :
+    TString.toString (s.take pos ++ [e] ++ s.drop pos)
+      = TString.toString (s.take pos) ++ e.glyph.toStringBytes ++ TString.toString (s.drop pos) := by
+  simp [TString.toString]
+theorem C17_erase_text (s : List Element) (a b : Nat) :
+    TString.toString (s.take a ++ s.drop b) = TString.toString (s.take a) ++ TString.toString (s.drop b) := by
+  simp [TString.toString]
+
+-- non-vacuity: a program using every operation, on concrete registers
+example :
+    TString.toString (SeqOp.run (fun _ => []) [
+        .set 0 (TString.ofCStr [0x61, 0x62, 0x00, 0x63]), .set 1 (TString.withAttr { intensity := .bold } (TString.ofBytes [0x00, 0xFF])),
+        .addS 0 1, .addE 0 { glyph := { b0 := 0xC3, b1 := 0xA9, cs := .utf8 } }, .plusS 2 0 1, .plusE 3 2 {},
+        .insE 2 1 { glyph := { b0 := 0x2A } }, .insR 3 0 2 1 3, .eraseRange 0 1 2, .eraseFrom 1 1, .swap 0 1,
+        .setAt 3 0 { glyph := { b0 := 0x21 } }, .eraseAll 2] 3)
+      = [0x21, 0x62, 0x61, 0x62, 0x00, 0xFF, 0xC3, 0xA9, 0x00, 0xFF, 0x20] := by decide
+
+-- ---------------------------------------------------------------------------------------------------------
+-- how text gets into a glyph: the constructors
+
+/-- a well-formed UTF-8 encoding of one code point U+0001–U+FFFF (what a `u8"…"` literal of one character holds) -/
+def WellFormed1 : List Byte → Bool
+  | [a] => a < 0x80 && a != 0
+  | [a, b] => (0xC2 ≤ a && a ≤ 0xDF) && isCont b
+  | [a, b, c] => (0xE0 ≤ a && a ≤ 0xEF) && isCont b && isCont c
+  | _ => false
+
+theorem low_facts : ∀ b : UInt8, b < 0x80 → b &&& 0x80 = 0 := by decide +kernel
+theorem high_facts : ∀ b : UInt8, 0x80 ≤ b → b &&& 0x80 ≠ 0 := by decide +kernel
+
+/-- `glyph(char const*)` on a NUL-terminated string holding exactly one well-formed character (the documented
+    use, `glyph(u8"\U00002501")`): a valid zero-padded glyph whose text is that character – whatever follows
+    the terminator in memory -/
+theorem C17_glyph_from_cstr (enc junk : List Byte) (hw : WellFormed1 enc = true) :
+    Glyph.Valid (Glyph.ofCharPtr (enc ++ 0 :: junk)) = true ∧ (Glyph.ofCharPtr (enc ++ 0 :: junk)).toStringBytes = enc := by
+  match enc, hw with
+  | [a], hw =>
+    simp only [WellFormed1, Bool.and_eq_true, decide_eq_true_eq, bne_iff_ne, ne_eq] at hw
+    have h0 := low_facts a hw.1
+    simp [Glyph.ofCharPtr, h0, Glyph.Valid, Glyph.toStringBytes, hw.1]
+  | [a, b], hw =>
+    simp only [WellFormed1, Bool.and_eq_true, decide_eq_true_eq] at hw
+    obtain ⟨⟨h1, h2⟩, h3⟩ := hw
+    obtain ⟨a1, a2, _, _, _⟩ := lead2_facts a h1 h2
+    obtain ⟨c1, c2, _, _⟩ := cont_facts b h3
+    simp [Glyph.ofCharPtr, a2, c2, c1, Glyph.Valid, Glyph.toStringBytes, h1, h2, h3]
+  | [a, b, c], hw =>
+    simp only [WellFormed1, Bool.and_eq_true, decide_eq_true_eq] at hw
+    obtain ⟨⟨⟨h1, h2⟩, h3⟩, h4⟩ := hw
+    obtain ⟨a1, a2, _, _, _⟩ := lead3_facts a h1 h2
+    obtain ⟨c1, c2, _, _⟩ := cont_facts b h3
+    obtain ⟨d1, d2, _, _⟩ := cont_facts c h4
+    simp [Glyph.ofCharPtr, a2, c2, c1, d1, Glyph.Valid, Glyph.toStringBytes, h1, h2, h3, h4]
+
+/-- the array constructors: the characters of the literal, zero padded -/
+theorem C17_glyph_from_array (a b c : Byte) :
+    (WellFormed1 [a] = true → Glyph.Valid (Glyph.ofArr1 a) = true ∧ (Glyph.ofArr1 a).toStringBytes = [a]) ∧
+    (WellFormed1 [a, b] = true → Glyph.Valid (Glyph.ofArr2 a b) = true ∧ (Glyph.ofArr2 a b).toStringBytes = [a, b]) ∧
+    (WellFormed1 [a, b, c] = true → Glyph.Valid (Glyph.ofArr3 a b c) = true ∧ (Glyph.ofArr3 a b c).toStringBytes = [a, b, c]) := by
+  refine ⟨?_, ?_, ?_⟩
+  · intro hw
+    simp only [WellFormed1, Bool.and_eq_true, decide_eq_true_eq, bne_iff_ne, ne_eq] at hw
+    simp [Glyph.ofArr1, Glyph.Valid, Glyph.toStringBytes, hw.1]
+  · intro hw
+    simp only [WellFormed1, Bool.and_eq_true, decide_eq_true_eq] at hw
+    obtain ⟨⟨h1, h2⟩, h3⟩ := hw
+    obtain ⟨c1, _, _, _⟩ := cont_facts b h3
+    simp [Glyph.ofArr2, Glyph.Valid, Glyph.toStringBytes, h1, h2, h3, c1]
+  · intro hw
+    simp only [WellFormed1, Bool.and_eq_true, decide_eq_true_eq] at hw
+    obtain ⟨⟨⟨h1, h2⟩, h3⟩, h4⟩ := hw
+    obtain ⟨c1, _, _, _⟩ := cont_facts b h3
+    obtain ⟨d1, _, _, _⟩ := cont_facts c h4
+    simp [Glyph.ofArr3, Glyph.Valid, Glyph.toStringBytes, h1, h2, h3, h4, c1, d1]
+
+/-- outside the documented use the pointer constructor is NOT a one-character reader: handed a pointer into
+    longer text it takes the byte after a two-byte character along (`Ď` = C4 8E followed by `S`).  Recorded as a
+    precondition of that constructor (one NUL-terminated character), not as a finding: no string operation of
+    the library calls it on longer text. -/
+theorem C17_glyph_from_cstr_needs_terminator :
+    Glyph.Valid (Glyph.ofCharPtr [0xC4, 0x8E, 0x53, 0x00]) = false
+    ∧ (Glyph.ofCharPtr [0xC4, 0x8E, 0x53, 0x00]).toStringBytes = [0xC4, 0x8E, 0x53] := by decide
 
 -- the quantifier domain includes embedded NUL, the UTF-8 glyph U+0000 and bytes above 0x7F
 example : Glyph.Valid { b0 := 0, b1 := 0, b2 := 0, cs := .utf8 } = true ∧ Glyph.Valid { b0 := 0, cs := .dec } = true ∧
